@@ -74,3 +74,15 @@ Print Assumptions C21_every_accepted_step_projected_refuted.
 Theorem C21_attempt_contract_satisfiable : atts_ok (Some (1/10)%R) None (1/10)%R [bad_attempt_R] /\ (0 < 1/10)%R.
 Proof. exact contract_satisfiable. Qed.
 Print Assumptions C21_attempt_contract_satisfiable.
+
+(** "within tolerance" is relative to the norm the integrator was asked to use (setUseInfinityNorm): acceptance in the
+    RMS norm does not give acceptance in the infinity norm, the converse holds *)
+Theorem C21_rms_within_does_not_give_inf_within :
+  within_tol QOps false [(3#2)%Q; 0%Q; 0%Q; 0%Q] 1%Q = true /\ within_tol QOps true [(3#2)%Q; 0%Q; 0%Q; 0%Q] 1%Q = false.
+Proof. exact rms_within_does_not_give_inf_within. Qed.
+Print Assumptions C21_rms_within_does_not_give_inf_within.
+
+Theorem C21_inf_within_gives_rms_within (errs:list R) (tol:R) :
+  (0 <= tol)%R -> within_tol ROps true errs tol = true -> within_tol ROps false errs tol = true.
+Proof. exact (inf_within_gives_rms_within errs tol). Qed.
+Print Assumptions C21_inf_within_gives_rms_within.
